@@ -526,6 +526,16 @@ def rule_toggle_chain(ctx, prop):
                     # a closure that is not driven over a sequence (called once) has nothing to carry
                     if not ups and not carried:
                         continue
+                    par = prog.fn("stylua_lib", f.path.rsplit("::{closure", 1)[0])
+                    driven = None
+                    if par is not None:
+                        for pb, pt in par.calls():
+                            for a in pt["args"][1:]:
+                                if not is_const(a) and any(r2[0] == "agg" and r2[1] == "closure " + f.path
+                                                           for r2 in provenance(par, a, through=None, into_aggs=False)):
+                                    driven = callee(pt)
+                    if driven is not None and re.search(r"(Option|Result)::<.*>::|(Option|Result)::<T", driven):
+                        continue      # `opt.map(|x| ..)`: at most one element
                 else:
                     threaded = any(r[0] == "call" and r[1] == TOGGLE for r in pr)
                 rep.inst(f"{f.key} check_toggle_formatting carries its state to the next element", {"at": f.loc(t["sp"])}, cfg, ok=threaded)
